@@ -1,7 +1,65 @@
 import GoawkModel.Basic
-/-! Line-protocol handler for property C05: one request line (already split into words, without the leading `c05`) → one answer line. -/
-namespace GoawkModel.Drv.C05
+import GoawkModel.C05
+import GoawkModel.C05Float
+import GoawkModel.C05Cmp
+/-!
+Line-protocol handler for property C05 (bytes in hex, `-` = empty; bit patterns as decimal naturals).
 
-def handle (_args : List String) : String := "unimplemented"
+* `a <hex>` → `<whole> <prefix> <bool>`: `parseFloat` (`T` = error/true string, else a result), `parseFloatPrefix`, `numStr(s).boolean()`;
+  a result is `nan` | `inf+` | `inf-` | `zero:0` | `conv:<hex text>:<bits>`
+* `s <bits>` → hex of `num(f).str("%.6g")`
+* `c <opcode> <val> <val>` → `0` | `1` | `none` (unfused opcode: Boolean pushed; fused opcode: jumps?)
+* `j <token> <invert 0/1> <val> <val>` → whether the jump emitted by `condition()` is taken
+  values: `u` null, `s<hex>` string, `f<hex>` numeric string, `n<bits>` number
+-/
+namespace GoawkModel.Drv.C05
+open GoawkModel GoawkModel.C05
+
+def renderRes : Res → String
+  | .nan => "nan"
+  | .inf true => "inf-"
+  | .inf false => "inf+"
+  | .zero => "zero:0"
+  | .conv t => "conv:" ++ toHex t ++ ":" ++ toString (textBits t)
+
+def parseVal (w : String) : Option Val :=
+  match w.toList with
+  | 'u' :: [] => some .null
+  | 's' :: h => (fromHex (String.ofList h)).map .str
+  | 'f' :: h => (fromHex (String.ofList h)).map .numstr
+  | 'n' :: d => (String.ofList d).toNat?.map fun b => .num (numOfBits b)
+  | _ => none
+
+def renderOB : Option Bool → String
+  | some true => "1"
+  | some false => "0"
+  | none => "none"
+
+def handle (args : List String) : String :=
+  match args with
+  | ["a", h] =>
+    match fromHex h with
+    | some s =>
+      let w := match scanWhole exactStrconv.ovf s with
+        | none => "T"
+        | some r => renderRes r
+      w ++ " " ++ renderRes (scanPrefix s) ++ " " ++ (if toBool exactStrconv (.numstr s) then "1" else "0")
+    | none => "bad-hex"
+  | ["s", b] =>
+    match b.toNat? with
+    | some b => toHex (numToStr fmtG6 (numOfBits b))
+    | none => "bad-bits"
+  | ["c", opcode, l, r] =>
+    match parseVal l, parseVal r with
+    | some l, some r =>
+      match pushes exactStrconv fmtG6 opcode l r with
+      | some b => renderOB (some b)
+      | none => renderOB (jumps exactStrconv fmtG6 opcode l r)
+    | _, _ => "bad-val"
+  | ["j", tok, inv, l, r] =>
+    match parseVal l, parseVal r with
+    | some l, some r => renderOB (condJumps exactStrconv fmtG6 tok (inv == "1") l r)
+    | _, _ => "bad-val"
+  | _ => "bad-request"
 
 end GoawkModel.Drv.C05
